@@ -116,6 +116,11 @@ Arguments grun {K}.
 
 (* the two keys: the user (the code), and (user, client address) *)
 Definition key_user (u : N) (_ : addr) : N := u.
+
+(* how the guard under the user key sits in Model.Session: `last_totp` is the value the guard compares with
+   (the larger of the two counters), `saved_totp` the persisted counter *)
+Definition g_rel (s : st) (g : gst N) : Prop :=
+  forall u a, last_totp s u = glast key_user g u a /\ saved_totp s u = persisted g u.
 Definition key_user_addr (u : N) (a : addr) : N * N := (u, a).
 Definition pair_eqb (x y : N * N) : bool := N.eqb (fst x) (fst y) && N.eqb (snd x) (snd y).
 
